@@ -56,10 +56,13 @@ theorem deserialiser_never_overwrites (C : Codec) (pos : Nat) (t : String) (acc 
     (∀ v, desStmt C pos (.computed t v) acc bits = none) := by
   refine ⟨?_, ?_, ?_, ?_, ?_, ?_⟩ <;> intros <;> simp [desStmt, h]
 
-/-- a computed value may not be supplied, nor set twice (ReusedTargetError in the serialiser too) -/
-theorem computed_value_must_be_fresh (C : Codec) (pos : Nat) (t : String) (v : Int) (d acc : Dict)
-    (h : d.has t = true ∨ acc.has t = true) : serStmt C pos (.computed t v) d acc = none := by
-  rcases h with h | h <;> simp [serStmt, h]
+/-- a computed value may not be set twice (ReusedTargetError in the serialiser too); a value SUPPLIED
+    for a computed target is overwritten by the computed one ("any existing value in the context
+    will be overwritten") and counts as used -/
+theorem computed_value_semantics (C : Codec) (pos : Nat) (t : String) (v : Int) (d acc : Dict) :
+    (acc.has t = true → serStmt C pos (.computed t v) d acc = none) ∧
+    (acc.has t = false → serStmt C pos (.computed t v) d acc = some ([], acc ++ [(t, .leaf (.int v))], d.erase t)) := by
+  constructor <;> intro h <;> simp [serStmt, h]
 
 /-! ### non-vacuity: lists of typed sub-descriptions, a bounded block with trailing padding, byte
     alignment and a computed value, with the real bit codec -/
